@@ -104,10 +104,12 @@ func (x *Exec) keepPreserved(st *State, havoc func()) {
 	for _, k := range sortedKeys(x.preserveSorts) {
 		saved[k] = x.heapGet(st, k, x.preserveSorts[k])
 	}
+	boxes := x.saveLocalBoxes(st)
 	havoc()
-	for k, v := range saved {
-		st.heap[k] = v
+	for _, k := range sortedKeys(saved) {
+		st.heap[k] = saved[k]
 	}
+	x.restoreLocalBoxes(st, boxes)
 }
 
 // loopKeepsPreserved: the loop's own code contains no store to a sole-writer field (calls
@@ -167,4 +169,163 @@ func (x *Exec) reachesItself(fn *ssa.Function) bool {
 		return false
 	}
 	return visit(fn)
+}
+
+// Local variables that live in the heap only because a closure of the same function captures
+// them (go/ssa allocates them with "new") cannot be written by a callee that never receives
+// their address or such a closure. A variable qualifies when every use of its address is a
+// load, a store to it, or the creation of a range-over-func body closure (whose code is
+// executed by this engine, not by the callee), and the same holds for the captured variable
+// inside those closures. Havocs caused by calls keep the contents of qualifying variables.
+type localBox struct {
+	loc      *LocV
+	passedTo map[ssa.Instruction]bool // calls that receive the variable's address (and only borrow it)
+}
+
+// borrowedParam: the callee uses the pointer parameter only to load and store through it
+// (or passes it on to functions that do the same); it cannot retain it.
+func borrowedParam(fn *ssa.Function, idx int, depth int) bool {
+	if fn == nil || len(fn.Blocks) == 0 || idx >= len(fn.Params) || depth > 3 {
+		return false
+	}
+	p := fn.Params[idx]
+	var vals []ssa.Value = []ssa.Value{p}
+	// naive form spills parameters into a local cell first: follow that one copy
+	for _, r := range *p.Referrers() {
+		if st, ok := r.(*ssa.Store); ok && st.Val == p {
+			if a, ok := st.Addr.(*ssa.Alloc); ok && !a.Heap {
+				for _, r2 := range *a.Referrers() {
+					if u, ok := r2.(*ssa.UnOp); ok && u.X == a {
+						vals = append(vals, u)
+					}
+				}
+				continue
+			}
+			return false
+		}
+	}
+	for _, v := range vals {
+		for _, r := range *v.Referrers() {
+			switch t := r.(type) {
+			case *ssa.DebugRef:
+			case *ssa.UnOp:
+				if t.X != v {
+					return false
+				}
+			case *ssa.Store:
+				if t.Addr == v {
+					continue
+				}
+				if v == p && t.Val == p {
+					continue // the spill handled above
+				}
+				return false
+			case *ssa.Call:
+				callee := t.Call.StaticCallee()
+				ok := false
+				for i, a := range t.Call.Args {
+					if a == v {
+						ok = callee != nil && borrowedParam(callee, i, depth+1)
+						if !ok {
+							return false
+						}
+					}
+				}
+				if t.Call.Value == v {
+					return false
+				}
+			default:
+				return false
+			}
+		}
+	}
+	return true
+}
+
+func nonEscapingBox(a *ssa.Alloc, passed map[ssa.Instruction]bool) bool {
+	var okRefs func(refs *[]ssa.Instruction, addr ssa.Value, depth int) bool
+	okRefs = func(refs *[]ssa.Instruction, addr ssa.Value, depth int) bool {
+		if refs == nil || depth > 4 {
+			return false
+		}
+		for _, r := range *refs {
+			switch t := r.(type) {
+			case *ssa.DebugRef:
+			case *ssa.UnOp:
+				if t.X != addr {
+					return false
+				}
+			case *ssa.Store:
+				if t.Addr != addr || t.Val == addr {
+					return false
+				}
+			case *ssa.Call:
+				callee := t.Call.StaticCallee()
+				if callee == nil || t.Call.Value == addr {
+					return false
+				}
+				for i, arg := range t.Call.Args {
+					if arg == addr && !borrowedParam(callee, i, 0) {
+						return false
+					}
+				}
+				passed[t] = true
+			case *ssa.MakeClosure:
+				fn, ok := t.Fn.(*ssa.Function)
+				if !ok || fn.Synthetic != "range-over-func yield" {
+					return false
+				}
+				for i, b := range t.Bindings {
+					if b == addr {
+						if i >= len(fn.FreeVars) || !okRefs(fn.FreeVars[i].Referrers(), fn.FreeVars[i], depth+1) {
+							return false
+						}
+					}
+				}
+			default:
+				return false
+			}
+		}
+		return true
+	}
+	return okRefs(a.Referrers(), a, 0)
+}
+
+func (x *Exec) noteLocalBox(a *ssa.Alloc, loc *LocV) {
+	if !a.Heap || loc == nil || loc.Cell != nil {
+		return
+	}
+	if _, isArr := loc.T.Underlying().(*types.Array); isArr {
+		return
+	}
+	passed := map[ssa.Instruction]bool{}
+	if nonEscapingBox(a, passed) {
+		x.localBoxes = append(x.localBoxes, localBox{loc, passed})
+	}
+}
+
+// saveLocalBoxes / restoreLocalBoxes bracket a havoc caused by a call.
+func (x *Exec) saveLocalBoxes(st *State) []Value {
+	out := make([]Value, len(x.localBoxes))
+	for i, b := range x.localBoxes {
+		if x.curSite != nil && b.passedTo[x.curSite] {
+			continue // this call receives the variable's address
+		}
+		func() {
+			defer func() { recover() }()
+			out[i] = x.load(nil, st, b.loc)
+		}()
+	}
+	return out
+}
+
+func (x *Exec) restoreLocalBoxes(st *State, vals []Value) {
+	for i, b := range x.localBoxes {
+		if i < len(vals) && (len(vals[i].L) > 0) {
+			func() {
+				defer func() { recover() }()
+				x.store(nil, st, b.loc, vals[i])
+			}()
+		}
+	}
 }
